@@ -374,7 +374,11 @@ class Open(State):
         #: Leaving the Open state ends this tick: going on to the send/receive
         #: handling below would overwrite the transition just taken with
         #: "stay Open" whenever a message happens to be pending.
-        if self.is_set_release_signal_from_peer():
+        #: What the peer sent before it went away is still consumed (TCP
+        #: delivers it ahead of the end of the stream): the disconnect is
+        #: acted upon once nothing received is left unread.
+        if self.is_set_release_signal_from_peer() and \
+                not self.association.has_unread_messages():
             self.event_open_peer_disc()
             return
 
